@@ -101,6 +101,19 @@ FindFacetOK(E, f) ==
 PfxOf(o) == IF o = <<>> THEN <<>> ELSE <<o[1].p>>
 PfxsOf(s) == [i \in 1..Len(s) |-> s[i].p]
 ValsOf(s) == [i \in 1..Len(s) |-> s[i].v]
+\* C15 on an observed tree <<n, h, v, left, right>>: every child strictly longer than, covered by and on the side
+\* selected by the next bit of its parent (observation-relative: needs no specification state)
+RECURSIVE TreeWFRec(_)
+TreeWFRec(t) ==
+    \/ t = <<>>
+    \/ /\ Len(t) = 5
+       /\ \A side \in {0, 1} :
+            LET c == t[4 + side] IN
+            c = <<>> \/ (/\ Len(c) = 5
+                         /\ Len(c[1]) > Len(t[1]) /\ IsPre(t[1], c[1]) /\ c[1][Len(t[1]) + 1] = side
+                         /\ TreeWFRec(c))
+TreeWF(t) == Len(t) = 5 /\ t[1] = <<>> /\ TreeWFRec(t)
+
 \* the contents the specification expects at this point, when the line can be related to a state:
 \* "sr" = the preceding calls were replayed on the specification; "expE" = given explicitly
 HasState(e) == Has(e, "sr") \/ Has(e, "expE")
@@ -128,6 +141,7 @@ ObsStep(e) ==
          /\ q.children = AChildren(E, q.q)                   \* C10
     /\ \A i \in 1..Len(e.vd) : ViewAtOK(E, e.vd[i].q, e.vd[i].d, FALSE)          \* C11
     /\ \A i \in 1..Len(e.fd) : FindFacetOK(E, e.fd[i])                            \* C12
+    /\ IF Has(e, "t") THEN TreeWF(e.t) ELSE TRUE                                   \* C15 (well-formedness)
     /\ UNCHANGED <<mA, mB, drift, canon>>
 
 ResetStep == mA' = EmptyMap /\ mB' = EmptyMap /\ drift' = 0 /\ canon' = TRUE
@@ -164,6 +178,7 @@ Expected(e) ==
                     lpmp |-> PfxOf(ALpm(E, q.q)), spmp |-> PfxOf(ASpm(E, q.q)),
                     ck |-> PfxsOf(ACover(E, q.q)), cv |-> ValsOf(ACover(E, q.q)),
                     children |-> AChildren(E, q.q)]],
+         twf |-> IF Has(e, "t") THEN TreeWF(e.t) ELSE TRUE,
          vdok |-> [i \in 1..Len(e.vd) |-> ViewAtOK(E, e.vd[i].q, e.vd[i].d, FALSE)],
          fdok |-> [i \in 1..Len(e.fd) |-> FindFacetOK(E, e.fd[i])]]
     ELSE IF e.a \in PairObservers THEN
